@@ -95,7 +95,7 @@ type Server struct {
 	bodyBad  []string // ids whose request body was not ReqBodyOf(id)
 	idBad    []string // requests whose X-Id and path disagree
 	shutdown bool
-	wg       sync.WaitGroup
+	active   int // serving goroutines that have not finished
 
 	afterShutdown int      // dials after Shutdown
 	lateIDs       []string // ids that arrived on such connections
@@ -288,10 +288,10 @@ func (s *Server) Dial(addr string) (net.Conn, error) {
 	log := &ConnLog{N: n, Addr: addr}
 	s.conns = append(s.conns, log)
 	s.sconns = append(s.sconns, sv)
-	s.wg.Add(1)
+	s.active++
 	s.mu.Unlock()
 	go func() {
-		defer s.wg.Done()
+		defer func() { s.mu.Lock(); s.active--; s.mu.Unlock() }()
 		s.serve(sv, log)
 	}()
 	return cl, nil
@@ -367,13 +367,18 @@ func (s *Server) CloseAll() {
 // Wait waits up to d for all serving goroutines to finish (each finishes when
 // its connection was closed by either side and its input was drained).
 func (s *Server) Wait(d time.Duration) bool {
-	done := make(chan struct{})
-	go func() { s.wg.Wait(); close(done) }()
-	select {
-	case <-done:
-		return true
-	case <-time.After(d):
-		return false
+	deadline := time.Now().Add(d)
+	for {
+		s.mu.Lock()
+		n := s.active
+		s.mu.Unlock()
+		if n == 0 {
+			return true
+		}
+		if time.Now().After(deadline) {
+			return false
+		}
+		time.Sleep(2 * time.Millisecond)
 	}
 }
 
